@@ -453,6 +453,14 @@ func runC01(r *evid.Run) {
 			return
 		}
 	}
+	// processors with ports that no instruction of theirs drives or reads (a port a front-end declared
+	// and the program never uses): one input and one output, two outputs, inputs only
+	for i, a := range []procArch{{RSize: 8, R: 2, N: 1, M: 1, L: 0}, {RSize: 8, R: 2, N: 0, M: 2, L: 0}, {RSize: 16, R: 2, N: 2, M: 0, L: 0}} {
+		a.Ops = uniqueSorted([]string{"rset", "j", "cpy", "inc", "add", "dec"})
+		if !add(a, 8, 24, r.Pick(4, 30), r.Seed*47+int64(i)) {
+			return
+		}
+	}
 	// register sizes beyond TLC's integers: the programs of the 16-bit specification are run on
 	// 32- and 64-bit processors, where the two back-ends are compared with each other only
 	nSpec := len(progs)
@@ -547,6 +555,13 @@ func runC01(r *evid.Run) {
 			}
 			if len(p.Arch.Ops) > 8 {
 				special = []string{"mixed"}
+			}
+			usesPorts := false
+			for _, o := range p.Arch.Ops {
+				usesPorts = usesPorts || o == "r2o" || o == "i2r"
+			}
+			if !usesPorts && p.Arch.N+p.Arch.M > 0 {
+				special = []string{"ports-no-instruction-uses"}
 			}
 			r.Violate("cannot-run:"+who+":"+strings.Join(special, "+"), fmt.Sprintf("a program over %v cannot be executed by the %s: %v %v", p.Arch.Ops, who, serr, herr), ctx)
 			continue
